@@ -397,11 +397,14 @@ fn do_pos(fields: &[&str], z: &ZobristHasher, out: &mut dyn Write) {
 
 fn do_roots(fields: &[&str], z: &ZobristHasher, out: &mut dyn Write) {
     // roots <position command>: the moves the search can choose from after this position command
+    // roots <position command> C: the same in capture-only mode (what quiescence would generate at that root)
     let cmds: Vec<&str> = fields[1].split(' ').collect();
+    let captures = fields.len() > 2 && fields[2] == "C";
     let r = catch_unwind(AssertUnwindSafe(|| {
         let mut t = DrawTable::new();
         let b = uci::verif_play_out_position(&cmds, z, &mut t);
-        let mut ms: Vec<String> = generate_moves(&b, MoveGenerationMode::AllMoves, z)
+        let mode = if captures { MoveGenerationMode::CapturesOnly } else { MoveGenerationMode::AllMoves };
+        let mut ms: Vec<String> = generate_moves(&b, mode, z)
             .iter()
             .map(uci_text)
             .collect();
